@@ -133,17 +133,13 @@ fn key_path(key: &str) -> &str {
 fn model_words_at(sim: &Sim, path: &str, uri: Option<&str>) -> Vec<String> {
     // acknowledged words, plus un-acknowledged ones (the process died before answering) that did
     // reach the file: an in-flight add may or may not have landed, either is allowed
-    let on_disk = read_words(path).unwrap_or_default();
+    let on_disk: std::collections::HashSet<String> = read_words(path).unwrap_or_default().into_iter().collect();
+    let by_id: HashMap<i64, bool> = sim.client.added.iter().map(|a| (a.req_id, a.acked)).collect();
     let mut v: Vec<String> = sim
         .oracle_state
         .dict_model
         .get(&dict_key(path, uri))
-        .map(|ws| {
-            ws.iter()
-                .filter(|(w, id)| sim.client.added.iter().any(|a| a.req_id == *id && (a.acked || on_disk.contains(w))))
-                .map(|(w, _)| w.clone())
-                .collect()
-        })
+        .map(|ws| ws.iter().filter(|(w, id)| by_id.get(id).map(|acked| *acked || on_disk.contains(w)).unwrap_or(false)).map(|(w, _)| w.clone()).collect())
         .unwrap_or_default();
     v.sort();
     v.dedup();
@@ -591,6 +587,12 @@ fn walk(dir: &std::path::Path, out: &mut Vec<String>) {
 
 // ------------------------------------------------------------------ C07: dictionaries
 
+/// At most a dozen words of a set, and how many there are.
+fn brief<'a>(it: impl Iterator<Item = &'a String>) -> String {
+    let v: Vec<&String> = it.collect();
+    if v.len() <= 12 { format!("{v:?}") } else { format!("{:?} ... ({} words)", &v[..12], v.len()) }
+}
+
 fn words_set(v: &[String]) -> std::collections::BTreeSet<String> {
     v.iter().cloned().collect()
 }
@@ -611,9 +613,9 @@ fn check_dict_files(sim: &mut Sim, when: &str) {
             .collect();
         let mut acked = std::collections::BTreeSet::new();
         let mut inflight = std::collections::BTreeSet::new();
+        let by_id: HashMap<i64, bool> = sim.client.added.iter().map(|a| (a.req_id, a.acked)).collect();
         for (w, id) in &entries {
-            let a = sim.client.added.iter().find(|a| a.req_id == *id);
-            if a.map(|a| a.acked).unwrap_or(false) {
+            if by_id.get(id).copied().unwrap_or(false) {
                 acked.insert(w.clone());
             } else {
                 inflight.insert(w.clone());
@@ -654,13 +656,13 @@ fn check_dict_files(sim: &mut Sim, when: &str) {
             oracle: "C07.file_reloads_to_added_set".into(),
             class: class.into(),
             detail: format!(
-                "{when}: dictionary file {path} {}reloads to {:?}; acknowledged words {:?}, in flight {:?}; lost {:?}, never added {:?}",
+                "{when}: dictionary file {path} {}reloads to {}; acknowledged words {}, in flight {:?}; lost {}, never added {}",
                 if on_disk.is_none() { "(missing) " } else { "" },
-                s,
-                acked,
+                brief(s.iter()),
+                brief(acked.iter()),
                 inflight,
-                lost,
-                alien
+                brief(lost.iter().copied()),
+                brief(alien.iter().copied())
             ),
             facts: json!({"when": when.split(' ').take(2).collect::<Vec<_>>().join(" "), "class": class}),
         });
